@@ -234,6 +234,38 @@ Theorem C11_fallthrough_delete_refuted :
 Proof. exact fallthrough_delete_refuted. Qed.
 Print Assumptions C11_fallthrough_delete_refuted.
 
+(* ---- two nodes: relays to another node are effects like any other ------------------------------------------------
+   In cluster mode (bridge manager, connection state store and cross-node pool configured; w_xnode, w_remote) a SOCKS5
+   tunnel request whose target is not connected here is broadcast to the cluster (code 1035: mapping SecretKey + dial
+   address), a DNS query whose target lives on another node is sent there as a frame (code 1121).  Relays are part of
+   res_deliv, so C11_reach_only_own_target, C11_unauth_refused and C11_history_step_uses_current_identity cover them:
+   nothing is relayed on behalf of a sender that is not the listen client of a mapping towards that target. *)
+
+(* the party check precedes every externally visible effect: a program whose emits all come after the check emits
+   nothing for a sender that is not entitled; the handlers' step orders have that shape *)
+Theorem C11_check_precedes_effects :
+  (forall prog, check_first prog = true -> emitted false prog = []) /\
+  check_first socks_prog_local = true /\ check_first socks_prog_remote = true /\ check_first dnsquery_prog_remote = true
+  /\ emitted true socks_prog_remote = [C_RelayTunnelOpen] /\ emitted true dnsquery_prog_remote = [C_RelayDNSQuery].
+Proof. exact (conj check_first_no_effects handler_orders_check_first). Qed.
+Print Assumptions C11_check_precedes_effects.
+
+(* relay-before-check (a seeded breaking change) is refuted, as a step order and on the executable model: in the two-node
+   world the stranger's and the unknown connection's SOCKS5 requests are relayed to client 2's node *)
+Theorem C11_relay_before_check_refuted :
+  (check_first socks_prog_remote_relay_first = false /\ emitted false socks_prog_remote_relay_first = [C_RelayTunnelOpen]) /\
+  (res_deliv (exec current_table w_cluster (KConn 1) 0 (c_demo 90 (Some 0) None)) = [(2, C_RelayTunnelOpen, 0)]
+   /\ res_deliv (exec current_table w_cluster (KConn 1) 0 (c_demo 121 None (Some 2))) = [(2, C_RelayDNSQuery, 0)]
+   /\ res_deliv (exec current_table w_cluster (KConn 3) 1 (c_demo 90 (Some 0) None)) = []
+   /\ res_deliv (exec current_table w_cluster (KConn 3) 1 (c_demo 121 None (Some 2))) = []
+   /\ res_deliv (exec current_table w_cluster KPending 1 (c_demo 90 (Some 0) None)) = []
+   /\ res_deliv (exec current_table w_cluster KUnknown 1 (c_demo 90 (Some 1) None)) = []
+   /\ res_deliv (socks_relay_first w_cluster (KConn 3) (c_demo 90 (Some 0) None)) = [(2, C_RelayTunnelOpen, 0)]
+   /\ res_deliv (socks_relay_first w_cluster KUnknown (c_demo 90 (Some 0) None)) = [(2, C_RelayTunnelOpen, 0)]
+   /\ ~ reach_ok 3 w_cluster (socks_relay_first w_cluster (KConn 3) (c_demo 90 (Some 0) None))).
+Proof. exact (conj relay_first_order_refuted cluster_relays_only_for_entitled). Qed.
+Print Assumptions C11_relay_before_check_refuted.
+
 (* the three properties hold for ANY dispatch table whose rows carry the columns their effect class requires
    (row_sound: identity from the connection, auth gate, party relation) — the table is data, the check is boolean *)
 Theorem C11_any_sound_table :
